@@ -1134,7 +1134,6 @@ class Client():
                                         ('data', self.requester.data),
                                         ('fargs', copy.copy(self.requester.fargs)),
                                        ])
-                        self.latest = None
                     else:
                         request = dict([
                                          ('host', self.requester.hostname),
@@ -1176,6 +1175,7 @@ class Client():
                         self.redirects = []
                         self.responses.append(response)
                         self.waited = False
+                        self.latest = None  # kept while redirecting so final response has it
                 self.respondent.makeParser()  #set up for next time
 
 
